@@ -345,9 +345,8 @@ def prove(report: Report, prop: str, translators, extra_targets=()):
     return {"ok": True, "broken": None}
 
 
-def free_port() -> int:
-    """a loopback TCP port that is free right now (asked from the kernel: several checks may run at the same time)"""
-    import socket
-    with socket.socket(socket.AF_INET, socket.SOCK_STREAM) as sock:
-        sock.bind(("127.0.0.1", 0))
-        return sock.getsockname()[1]
+def own_port(k: int = 0) -> int:
+    """A loopback TCP port of this process's own block of ten.  Several checks may run at the same time: the blocks are keyed by
+    the pid (distinct for processes alive together) and lie below the kernel's ephemeral range, so neither another check nor an
+    outgoing connection is given the same port while an endpoint here is between two listeners."""
+    return 10000 + (os.getpid() % 2000) * 10 + (k % 10)
